@@ -90,11 +90,13 @@ theorem takeLits_spec (mx : Nat) : ∀ (ws : List Nat) (n : Nat),
     intro n
     unfold takeLits
     by_cases h : w ≠ 0 ∧ w ≠ allOnes
-    · by_cases h2 : n + 1 ≥ mx
-      · simp [h, h2]
-      · simp only [h, h2, and_self, if_true, if_false, List.cons_append]
+    · rw [if_pos h]
+      by_cases h2 : n + 1 ≥ mx
+      · rw [if_pos h2]; rfl
+      · rw [if_neg h2]
+        show w :: ws = w :: ((takeLits mx (n + 1) ws).1 ++ (takeLits mx (n + 1) ws).2)
         rw [← ih (n + 1)]
-    · simp [h]
+    · rw [if_neg h]; rfl
 
 theorem takeLits_len (mx : Nat) (ws : List Nat) (n : Nat) :
     (takeLits mx n ws).1.length + (takeLits mx n ws).2.length = ws.length := by
@@ -105,7 +107,10 @@ theorem takeLits_len (mx : Nat) (ws : List Nat) (n : Nat) :
 theorem takeLits_pos (mx n w : Nat) (ws : List Nat) (h0 : w ≠ 0) (h1 : w ≠ allOnes) :
     1 ≤ (takeLits mx n (w :: ws)).1.length := by
   unfold takeLits
-  by_cases h2 : n + 1 ≥ mx <;> simp [h0, h1, h2]
+  rw [if_pos ⟨h0, h1⟩]
+  by_cases h2 : n + 1 ≥ mx
+  · rw [if_pos h2]; simp
+  · rw [if_neg h2]; simp
 
 theorem takeLitsDec_append (M : Nat) : ∀ (l : List Nat) (cur : Nat) (rest : List Nat),
     cur + l.length ≤ M → takeLitsDec M l.length cur (l ++ rest) = .ok (l, rest) := by
@@ -134,9 +139,11 @@ theorem rlw_fields (nl rl rb : Nat) (hrl : rl < 2 ^ 32) (hrb : rb < 2) :
 theorem decodeWordsAux_nil (M fuel cur : Nat) : decodeWordsAux M fuel cur [] = .ok [] := by
   cases fuel <;> simp [decodeWordsAux]
 
-theorem allOnes_ne_zero : allOnes ≠ 0 := by decide
+theorem allOnes_ne_zero : allOnes ≠ 0 := by
+  show Gen.Accel.ewahAllOnes ≠ 0
+  unfold Gen.Accel.ewahAllOnes
+  omega
 
-/-- one chunk of the decoder undoes one chunk of the encoder -/
 theorem decode_chunk (M f cur n rb : Nat) (l tail dtail : List Nat)
     (hn : n < 2 ^ 32) (hrb : rb < 2) (hM : cur + n + l.length ≤ M)
     (ht : decodeWordsAux M f (cur + n + l.length) tail = .ok dtail) :
@@ -144,9 +151,10 @@ theorem decode_chunk (M f cur n rb : Nat) (l tail dtail : List Nat)
       .ok (List.replicate n (if rb = 1 then allOnes else 0) ++ l ++ dtail) := by
   obtain ⟨h1, h2, h3⟩ := rlw_fields l.length n rb hn hrb
   have hc : ¬ (n > 0 ∧ cur + n > M) := by omega
-  simp only [decodeWordsAux, h1, h2, h3, hc, if_false]
-  rw [takeLitsDec_append M l (cur + n) tail (by omega)]
+  rw [decodeWordsAux]
+  rw [h2, h3, h1, if_neg hc, takeLitsDec_append M l (cur + n) tail (by omega)]
   simp only [ht]
+
 
 theorem encode_decode_aux (mx M : Nat) : ∀ (fuelE : Nat) (ws : List Nat) (cur fuelD : Nat),
     ws.length ≤ fuelE → (encodeWordsAux mx fuelE ws).length ≤ fuelD → cur + ws.length ≤ M →
@@ -209,5 +217,71 @@ theorem encode_decode_aux (mx M : Nat) : ∀ (fuelE : Nat) (ws : List Nat) (cur 
         congr 1
         simp only [List.replicate_zero, List.nil_append]
         exact hl.symm
+
+
+
+theorem takeLitsDec_spec (M : Nat) : ∀ (n cur : Nat) (ws l r : List Nat),
+    takeLitsDec M n cur ws = .ok (l, r) → cur ≤ M → cur + l.length ≤ M ∧ ws = l ++ r := by
+  intro n
+  induction n with
+  | zero =>
+    intro cur ws l r h hc
+    simp only [takeLitsDec, Except.ok.injEq, Prod.mk.injEq] at h
+    obtain ⟨rfl, rfl⟩ := h
+    simp; omega
+  | succ n ih =>
+    intro cur ws l r h hc
+    cases ws with
+    | nil =>
+      simp only [takeLitsDec, Except.ok.injEq, Prod.mk.injEq] at h
+      obtain ⟨rfl, rfl⟩ := h
+      simp; omega
+    | cons w ws =>
+      rw [takeLitsDec] at h
+      by_cases hb : cur + 1 > M
+      · rw [if_pos hb] at h; cases h
+      · rw [if_neg hb] at h
+        cases hr : takeLitsDec M n (cur + 1) ws with
+        | error e => rw [hr] at h; cases h
+        | ok pr =>
+          obtain ⟨l', r'⟩ := pr
+          rw [hr] at h
+          simp only [Except.ok.injEq, Prod.mk.injEq] at h
+          obtain ⟨rfl, rfl⟩ := h
+          obtain ⟨h1, h2⟩ := ih (cur + 1) ws l' r' hr (by omega)
+          refine ⟨by simp; omega, by simp [h2]⟩
+
+/-- the decoder never produces more than `M` uncompressed words (counting the `cur` already produced) -/
+theorem decodeWordsAux_bounded (M : Nat) : ∀ (fuel cur : Nat) (cw ws : List Nat),
+    cur ≤ M → decodeWordsAux M fuel cur cw = .ok ws → cur + ws.length ≤ M := by
+  intro fuel
+  induction fuel with
+  | zero => intro cur cw ws hc h; simp only [decodeWordsAux, Except.ok.injEq] at h; subst h; simpa using hc
+  | succ fuel ih =>
+    intro cur cw ws hc h
+    cases cw with
+    | nil => simp only [decodeWordsAux, Except.ok.injEq] at h; subst h; simpa using hc
+    | cons w cw =>
+      rw [decodeWordsAux] at h
+      by_cases hb : runLenOf w > 0 ∧ cur + runLenOf w > M
+      · rw [if_pos hb] at h; cases h
+      · rw [if_neg hb] at h
+        have hc2 : cur + runLenOf w ≤ M := by omega
+        cases hl : takeLitsDec M (litCntOf w) (cur + runLenOf w) cw with
+        | error e => rw [hl] at h; cases h
+        | ok pr =>
+          obtain ⟨lits, rest⟩ := pr
+          rw [hl] at h
+          simp only at h
+          obtain ⟨h1, _⟩ := takeLitsDec_spec M _ _ _ _ _ hl hc2
+          cases ht : decodeWordsAux M fuel (cur + runLenOf w + lits.length) rest with
+          | error e => rw [ht] at h; cases h
+          | ok tl =>
+            rw [ht] at h
+            simp only [Except.ok.injEq] at h
+            subst h
+            have := ih _ _ _ h1 ht
+            simp only [List.length_append, List.length_replicate]
+            omega
 
 end Dulwich.Ewah
